@@ -18,10 +18,19 @@ for i in ids:
         print(i, "PATCH FAILED", r.stderr[:200]); continue
     res = {}
     try:
-        for pr in props:
-            r = subprocess.run([ROOT + "/check", pr], capture_output=True, text=True, cwd=ROOT)
-            v = [l for l in r.stdout.splitlines() if l.startswith("  obligation")]
-            res[pr] = {"exit": r.returncode, "violations": [x.strip()[:300] for x in v][:6]}
+        r = subprocess.run([ROOT + "/check", "ALL"], capture_output=True, text=True, cwd=ROOT)
+        cur = None
+        buf = {}
+        viol = []
+        for l in r.stdout.splitlines():
+            m = __import__("re").match(r"^(C\d+) quick: .* exit (\d+)$", l)
+            if l.startswith("  obligation"):
+                viol.append(l.strip()[:300])
+            if m:
+                res[m.group(1)] = {"exit": int(m.group(2)), "violations": viol[:6]}
+                viol = []
+        if not res:
+            print(i, "CHECK FAILED", r.stderr[-400:])
     finally:
         subprocess.run(["git", "-C", "/repo", "checkout", "--", "."])
     json.dump(res, open(os.path.join(d, "detect.json"), "w"), indent=1)
